@@ -34,6 +34,7 @@ RULE = (
     "row header+N -> no error (reading stopped); header < fault row <= N -> DataError; the rest is neutral. "
     "Non-trivial: the bad/fault row lies on a boundary (header, header+1, limit, limit+1; for faults also "
     "header+limit, header+limit+1). Distinct by construction."
+    "Limits also 2^31 and 2^64."
 )
 ASSUMPTIONS = [
     "a fresh Cid is loaded for every run (carry-over between runs is property C08)",
